@@ -2,6 +2,7 @@ import LexVerif.Spec.Decimal
 import LexVerif.Props.TablesParse
 import LexVerif.Proof.FastPathExact
 import LexVerif.Proof.LemireExact
+import LexVerif.Proof.LemireStable
 import LexVerif.Proof.BellSound
 /-!
 # C01 — decimal string→float parsing is correctly rounded (property theorems)
@@ -118,15 +119,21 @@ def IsI64 (q : Int) : Prop := -(2 ^ 63 : Int) ≤ q ∧ q < (2 ^ 63 : Int)
 def roundedDown (F : FTy) (fp : ExtendedFloat80) : Nat :=
   extendedToFloat F (Bellerophon.round F { fp with exp := fp.exp - invalidFp } Bellerophon.roundDown)
 
-/-- an undecided result brackets the value: with `b` the extended float rounded **down** to the float format,
-`b ≤ num/den < next(b)` (in units of the least subnormal, `ival`) -/
+/-- an undecided result brackets the value: with `b` the extended float rounded **down** to the float format, the
+correctly rounded value is `b` or the next float, `b ≤ roundNE x ≤ b + 1` (as bit patterns).
+This is exactly what `slow_radix` relies on (`negative_digit_comp` compares the digits with `b + ½ulp` and returns
+`b` or its successor; `positive_digit_comp` ignores the estimate). The stricter `b ≤ x < next(b)` is **not** what
+the fall-back of `compute_float` guarantees: with an all-ones low word the true product may carry into `hi`, so
+`x` can reach `next(b)` (by less than one unit of the 128-bit product). -/
 def Bracket (F : FTy) (fp : ExtendedFloat80) (num den : Nat) : Prop :=
-  ival F.fmt (roundedDown F fp) * den ≤ num * 2 ^ L F.fmt ∧
-  num * 2 ^ L F.fmt < ival F.fmt (roundedDown F fp + 1) * den
+  roundedDown F fp ≤ roundNE F.fmt num den ∧ roundNE F.fmt num den ≤ roundedDown F fp + 1
 
-/-- **C01.5 `lemire_sound` — full statement** (kept as a `Prop`; only `lemire_sound_partial` is proved):
-for every `i64` exponent and every `u64` mantissa, non-lossy `compute_float` never panics and answers either
-with a valid float that is `roundNE (w·10^q)`, or with an invalid-marked extended float that brackets it. -/
+/-- **C01.5 `lemire_sound` — full statement** (kept as a `Prop`): for every `i64` exponent and every `u64` mantissa,
+non-lossy `compute_float` never panics and answers either with a valid float that is `roundNE (w·10^q)`, or with an
+invalid-marked extended float that brackets it.
+Proved: the valid-answer half for every `q ≥ 0` and below/above the cut-offs (`lemire_sound_nonneg`,
+`lemire_sound_partial`). `lemire_sound_reduction` reduces the rest to two named sub-lemmas, `LemireNegSound`
+(valid answers for `SMALLEST_POWER_OF_TEN ≤ q ≤ −1`) and `LemireFallbackBrackets` (the invalid-marked answers). -/
 def lemire_sound : Prop :=
   ∀ F, IsLemireFloat F → ∀ (q : Int) (w : Nat), IsI64 q → w < 2 ^ 64 →
     ∃ fp, Lemire.computeFloat F q w false = .ok fp ∧
@@ -154,10 +161,10 @@ theorem ext_inf_of {F p eb} (lay : Layout F p eb) :
   rw [lay.infp, this, Nat.add_zero, lay.fmt]; rfl
 
 theorem lemLayout_of {F : FTy} (hF : IsLemireFloat F) :
-    ∃ p eb sm lg a b, LemLayout F p eb sm lg a b ∧ (27 : Int) ≤ lg := by
+    ∃ p eb sm lg a b, LemLayout F p eb sm lg a b ∧ (27 : Int) ≤ lg ∧ b < 28 := by
   rcases hF with h | h <;> subst h
-  · exact ⟨_, _, _, _, _, _, lemLayout_f64, by decide⟩
-  · exact ⟨_, _, _, _, _, _, lemLayout_f32, by decide⟩
+  · exact ⟨_, _, _, _, _, _, lemLayout_f64, by decide, by decide⟩
+  · exact ⟨_, _, _, _, _, _, lemLayout_f32, by decide, by decide⟩
 
 /-- **C01.5 `lemire_sound_partial`** — proved part of `lemire_sound`: on `LemirePartialDomain` (zero mantissa;
 below `SMALLEST_POWER_OF_TEN`; above `LARGEST_POWER_OF_TEN`; the exact-product range `0 ≤ q ≤ 27` where
@@ -168,7 +175,7 @@ theorem lemire_sound_partial (F : FTy) (hF : IsLemireFloat F) (q : Int) (w : Nat
     (hdom : LemirePartialDomain F q w) :
     ∃ fp, Lemire.computeFloat F q w false = .ok fp ∧ 0 ≤ fp.exp ∧
       extendedToFloat F fp = roundNE F.fmt (powFrac 10 q w).1 (powFrac 10 q w).2 := by
-  obtain ⟨p, eb, sm, lg, a, b, LL, hlg⟩ := lemLayout_of hF
+  obtain ⟨p, eb, sm, lg, a, b, LL, hlg, _⟩ := lemLayout_of hF
   by_cases hw0 : w = 0
   · subst hw0
     refine ⟨⟨0, 0⟩, ?_, Int.le_refl _, ?_⟩
@@ -190,6 +197,80 @@ theorem lemire_sound_partial (F : FTy) (hF : IsLemireFloat F) (q : Int) (w : Nat
       rw [if_pos (by omega)]
       simp only [Int.toNat_natCast]
 
+/-- **C01.5 `lemire_sound_nonneg`** — the valid-answer half of `lemire_sound` for **every** `q ≥ 0` (and, trivially,
+beyond the cut-offs): `compute_float` answers, and a valid answer is `roundNE (w·10^q)`.
+`0 ≤ q ≤ 27`: exact product. `28 ≤ q ≤ LARGEST_POWER_OF_TEN`: truncated rows, by the **stability** argument of
+`Proof.LemireStable` — `compute_product_approx` returns a lower bound of the 192-bit product tight to one unit (second
+multiplication) or to `2^64` units with the masked bits of `hi` not all ones; the rows up to `q = 55` are exact, and
+beyond the code falls back when the low word is all ones; hence the `p + 1` upper bits are those of `w·5^q`, and an
+exact tie is impossible because `5^q > 2^64`. No continued-fraction bound is used. -/
+theorem lemire_sound_nonneg (F : FTy) (hF : IsLemireFloat F) (q : Int) (hq : 0 ≤ q) (w : Nat) (hw : w < 2 ^ 64) :
+    ∃ fp, Lemire.computeFloat F q w false = .ok fp ∧
+      (0 ≤ fp.exp → extendedToFloat F fp = roundNE F.fmt (powFrac 10 q w).1 (powFrac 10 q w).2) := by
+  obtain ⟨p, eb, sm, lg, a, b, LL, hlg, hb28⟩ := lemLayout_of hF
+  by_cases hdom : LemirePartialDomain F q w
+  · obtain ⟨fp, e1, _, e3⟩ := lemire_sound_partial F hF q w hw hdom
+    exact ⟨fp, e1, fun _ => e3⟩
+  · have hw0 : w ≠ 0 := fun h => hdom (Or.inl h)
+    have hlarge : ¬ q > F.C.largestPowerOfTen := fun h => hdom (Or.inr (Or.inr (Or.inl h)))
+    have h28 : ¬ q ≤ 27 := fun h => hdom (Or.inr (Or.inr (Or.inr ⟨hq, h⟩)))
+    rw [LL.largest] at hlarge
+    obtain ⟨qn, rfl⟩ : ∃ qn : Nat, q = (qn : Int) := ⟨q.toNat, by omega⟩
+    have hlg308 := LL.lg308
+    obtain ⟨fp, e1, e2⟩ := LexVerif.Proof.Lemire.computeFloat_trunc_pos LL hb28 qn (by omega) (by omega) (by omega)
+      w hw0 hw
+    refine ⟨fp, e1, fun hv => ?_⟩
+    rw [e2 hv]
+    unfold powFrac
+    rw [if_pos (by omega)]
+    simp only [Int.toNat_natCast]
+
+/-- `compute_float` is right (`CFSound`) for every `q ≥ 0` -/
+theorem cfSound_nonneg (F : FTy) (hF : IsLemireFloat F) (q : Int) (hq : 0 ≤ q) (w : Nat) (hw : w < 2 ^ 64) :
+    CFSound F q w := by
+  intro fp h hv
+  obtain ⟨fp2, e1, e2⟩ := lemire_sound_nonneg F hF q hq w hw
+  rw [e1] at h; injection h with h; subst h; exact e2 hv
+
+/-- **what is still open of `lemire_sound`**, (1): valid answers for negative exponents inside the table,
+`SMALLEST_POWER_OF_TEN ≤ q ≤ −1`. Sub-cases, by what the proof needs beyond `Proof.LemireStable`:
+* `q ≤ −28`, normal result: the rows are truncated reciprocals (`T ≤ 2^s/5^|q| < T + 1`) — the same stability
+  argument with denominator `5^|q|` (`cfRound_of_quot` and `quot_stable` are stated for arbitrary `N`, `D'`); no tie
+  (`5^28 ∤ w`);
+* `q ≤ −28`, subnormal result (`power2 ≤ 0`): the branch that shifts the `p + 1` bits further and rounds half-up
+  needs its own `round_step` (no exact tie, so the dropped sticky bits cannot matter);
+* `−27 ≤ q ≤ −1`: the rows are reciprocals rounded **up** (`⌊2^s/5^|q|⌋ + 1`), the error is on the other side
+  (a borrow when `lo = 0`), excluded by divisibility (`w·2^s − m·2^(128+sh)·5^|q|` is a multiple of `2^129` smaller
+  than `2^127`); the round-to-even test additionally needs, in the branch without second multiplication, that
+  `wn·hi5 ≡ 0, 1 (mod 2^(64+sh))` has no normalised solution — a finite check per row of the window. -/
+def LemireNegSound : Prop :=
+  ∀ F, IsLemireFloat F → ∀ (q : Int) (w : Nat), F.C.smallestPowerOfTen ≤ q → q < 0 → w < 2 ^ 64 → CFSound F q w
+
+/-- **what is still open of `lemire_sound`**, (2): the invalid-marked answers (`lo` all ones outside `[−27, 55]`)
+bracket the value — the estimate `hi` is at most one unit below the exact upper word, so `roundNE` is the
+rounded-down estimate or its successor. Needs `Bellerophon.round … roundDown` on the un-biased estimate related to
+`hi`; not attempted. -/
+def LemireFallbackBrackets : Prop :=
+  ∀ F, IsLemireFloat F → ∀ (q : Int) (w : Nat) (fp : ExtendedFloat80), IsI64 q → w < 2 ^ 64 →
+    Lemire.computeFloat F q w false = .ok fp → fp.exp < 0 →
+    Bracket F fp (powFrac 10 q w).1 (powFrac 10 q w).2
+
+/-- **`lemire_sound` reduced to its two open sub-lemmas** (everything else is proved) -/
+theorem lemire_sound_reduction (hneg : LemireNegSound) (hfb : LemireFallbackBrackets) : lemire_sound := by
+  intro F hF q w hq hw
+  obtain ⟨p, eb, sm, lg, a, b, LL, _, _⟩ := lemLayout_of hF
+  have hnp := LexVerif.Proof.Lemire.computeFloat_no_panic LL q w false
+  cases hcf : Lemire.computeFloat F q w false with
+  | panic => exact absurd hcf hnp
+  | ok fp =>
+    refine ⟨fp, rfl, fun hv => ?_, fun hi => hfb F hF q w fp hq hw hcf hi⟩
+    by_cases h0 : 0 ≤ q
+    · exact cfSound_nonneg F hF q h0 w hw fp hcf hv
+    · by_cases hsm : F.C.smallestPowerOfTen ≤ q
+      · exact hneg F hF q w hsm (by omega) hw fp hcf hv
+      · obtain ⟨fp2, e1, _, e3⟩ := lemire_sound_partial F hF q w hw (Or.inr (Or.inl (by omega)))
+        rw [e1] at hcf; injection hcf with hcf; subst hcf; exact e3
+
 /-- **the `many_digits` wrapper** (`lemire()`): if `compute_float` is right on `w` and on `w + 1`
 (`CFSound`, e.g. by `lemire_sound_partial`), then a *valid* answer of `lemire` for the truncated mantissa `w`
 is `roundNE x` for **every** `x` with `w·10^q ≤ x ≤ (w+1)·10^q` — in particular for the value of the
@@ -201,13 +282,32 @@ theorem lemire_wrapper (F : FTy) (hF : IsLemireFloat F) (q : Int) (w : Nat) (neg
     (hlo : (powFrac 10 q w).1 * den ≤ num * (powFrac 10 q w).2)
     (hhi : num * (powFrac 10 q (w + 1)).2 ≤ (powFrac 10 q (w + 1)).1 * den) :
     extendedToFloat F fp = roundNE F.fmt num den := by
-  obtain ⟨p, eb, sm, lg, a, b, LL, _⟩ := lemLayout_of hF
+  obtain ⟨p, eb, sm, lg, a, b, LL, _, _⟩ := lemLayout_of hF
   exact LexVerif.Proof.Lemire.lemire_wrapper LL q w neg hq.1 hq.2 hw S0 S1 h hv num den hd hlo hhi
+
+/-- the wrapper for **every** `q ≥ 0`: a valid answer of `lemire` for a truncated mantissa is `roundNE` of every value in
+`[w, w + 1]·10^q` — unconditional (`cfSound_nonneg`) -/
+theorem lemire_wrapper_nonneg (F : FTy) (hF : IsLemireFloat F) (q : Int) (hq0 : 0 ≤ q) (hq : IsI64 q)
+    (w : Nat) (neg : Bool) (hw : w + 1 < 2 ^ 64) {fp : ExtendedFloat80}
+    (h : Lemire.lemire F ⟨w, q, neg, true⟩ false = .ok fp) (hv : 0 ≤ fp.exp)
+    (num den : Nat) (hd : 0 < den)
+    (hlo : (powFrac 10 q w).1 * den ≤ num * (powFrac 10 q w).2)
+    (hhi : num * (powFrac 10 q (w + 1)).2 ≤ (powFrac 10 q (w + 1)).1 * den) :
+    extendedToFloat F fp = roundNE F.fmt num den :=
+  lemire_wrapper F hF q w neg hq hw (cfSound_nonneg F hF q hq0 w (by omega)) (cfSound_nonneg F hF q hq0 (w + 1) hw)
+    h hv num den hd hlo hhi
+
+/-- non-vacuity of the truncated-row range: valid answers at `q = 280` (f64), `q = 28` with a 19-digit mantissa,
+`q = 30` (f32) -/
+example : Lemire.computeFloat FTy.f64 280 12345678901234567 false = .ok ⟨2297654681327541, 2006⟩ ∧
+    Lemire.computeFloat FTy.f64 28 9999999999999999999 false = .ok ⟨426781030260828, 1179⟩ ∧
+    Lemire.computeFloat FTy.f32 30 87654321 false = .ok ⟨254775, 253⟩ := by
+  decide +kernel
 
 /-- `compute_float` never panics: the checked index into `POWER_OF_FIVE_128` is always in range -/
 theorem computeFloat_no_panic (F : FTy) (hF : IsLemireFloat F) (q : Int) (w : Nat) (lossy : Bool) :
     Lemire.computeFloat F q w lossy ≠ .panic := by
-  obtain ⟨p, eb, sm, lg, a, b, LL, _⟩ := lemLayout_of hF
+  obtain ⟨p, eb, sm, lg, a, b, LL, _, _⟩ := lemLayout_of hF
   exact LexVerif.Proof.Lemire.computeFloat_no_panic LL q w lossy
 
 /-- the wrapper instantiated on the proved domain: a truncated 19-digit mantissa at `0 ≤ q ≤ 27` -/
